@@ -24,6 +24,20 @@ supervisor/process.py ProcessGroupBase.__eq__):
       other.<path> comparisons it consists of
 Any other shape is an extraction error (ValueError).  Props/C15 `removed_group_not_transitioned` is proved for the
 extracted guard.
+A file that cannot be parsed (supervisor/options.py expand(), supervisor/rpcinterface.py reloadConfig):
+  expandHandlers : the `except` clauses around `s % expansions` in expand(), in order, as (class caught, class raised);
+      a bare `except:` is ("BaseException", ..), a clause that re-raises is (c, "<same>")
+  reloadCatches  : the `except` clauses around options.process_config(...) in reloadConfig as (class caught, name of the
+      fault of the RPCError raised)
+  Props/C15 `format_failure_is_value_error` / `unparsable_format_answered_cant_reread`: whatever class `%` raises
+      (KeyError, ValueError, TypeError), a ValueError leaves expand() and reloadConfig answers CANT_REREAD.
+The working directory (supervisor/options.py):
+  childLogfileChain : the functions applied, in order, to the value of stdout_logfile / stderr_logfile in
+      _processes_from_section (`lf_val = f(...)`)
+  cwdCalls : per function that builds group / process configurations, the calls of functions whose result depends on
+      the working directory (normalize_path, abspath, realpath, getcwd, relpath ...)
+  fcgiSocketPathMustBeAbsolute : parse_fcgi_socket refuses a unix socket path that is not absolute before anything else
+  Props/C15 `parse_independent_of_cwd` / `unchanged_file_reports_nothing_after_chdir`.
 """
 import ast, os
 from extract import REPO, lean_str
@@ -242,6 +256,115 @@ def _group_eq_facts():
     return True, paths
 
 
+def _exc_names(t):
+    if t is None:
+        return ['BaseException']
+    if isinstance(t, ast.Tuple):
+        return [ast.unparse(e).split('.')[-1] for e in t.elts]
+    return [ast.unparse(t).split('.')[-1]]
+
+
+def _expand_handlers(opt):
+    fn = next(n for n in opt.body if isinstance(n, ast.FunctionDef) and n.name == 'expand')
+    tries = [n for n in ast.walk(fn) if isinstance(n, ast.Try)
+             and any(isinstance(b, ast.BinOp) and isinstance(b.op, ast.Mod) for st in n.body for b in ast.walk(st))]
+    mods = [b for b in ast.walk(fn) if isinstance(b, ast.BinOp) and isinstance(b.op, ast.Mod) and isinstance(b.left, ast.Name) and b.left.id == fn.args.args[0].arg]
+    if len(tries) != 1 or len(mods) != 1 or tries[0].finalbody or tries[0].orelse:
+        raise ValueError('expand(): `s %% expansions` is not inside exactly one try/except (%d try statements, %d formatting operations)' % (len(tries), len(mods)))
+    out = []
+    for h in tries[0].handlers:
+        raises = [n for n in ast.walk(h) if isinstance(n, ast.Raise)]
+        # straight-line code ending in the clause's only raise (nothing is returned or swallowed)
+        if len(raises) != 1 or h.body[-1] is not raises[0] or any(isinstance(n, (ast.Return, ast.Try, ast.If, ast.For, ast.While, ast.With)) for n in ast.walk(h)):
+            raise ValueError('expand(): an except clause is not straight-line code ending in a raise statement: %s' % ast.unparse(h).split('\n')[0])
+        r = raises[0]
+        if r.exc is None:
+            raised = '<same>'
+        elif isinstance(r.exc, ast.Call):
+            raised = ast.unparse(r.exc.func).split('.')[-1]
+        else:
+            raise ValueError('expand(): raise of %s' % ast.unparse(r.exc))
+        for c in _exc_names(h.type):
+            out.append((c, raised))
+    return out
+
+
+def _reload_catches():
+    ri = ast.parse(open(os.path.join(REPO, 'supervisor/rpcinterface.py')).read())
+    fn = _meth(_cls(ri, 'SupervisorNamespaceRPCInterface'), 'reloadConfig')
+    calls = [n for n in ast.walk(fn) if isinstance(n, ast.Call) and isinstance(n.func, ast.Attribute) and n.func.attr == 'process_config']
+    tries = [n for n in fn.body if isinstance(n, ast.Try) and any(c in list(ast.walk(ast.Module(body=n.body, type_ignores=[]))) for c in calls)]
+    if len(calls) != 1 or len(tries) != 1 or tries[0].finalbody:
+        raise ValueError('reloadConfig: options.process_config(...) is not called once, inside one try/except at the top level of the method')
+    out = []
+    for h in tries[0].handlers:
+        if len(h.body) != 1 or not isinstance(h.body[0], ast.Raise) or not isinstance(h.body[0].exc, ast.Call) \
+                or ast.unparse(h.body[0].exc.func).split('.')[-1] != 'RPCError' or not h.body[0].exc.args:
+            raise ValueError('reloadConfig: an except clause is not `raise RPCError(Faults.X, ...)`: %s' % ast.unparse(h).split('\n')[0])
+        fault = ast.unparse(h.body[0].exc.args[0]).split('.')[-1]
+        for c in _exc_names(h.type):
+            out.append((c, fault))
+    return out
+
+
+CWD_DEPENDENT = {'normalize_path', 'abspath', 'realpath', 'getcwd', 'getcwdb', 'relpath', 'absolute', 'resolve', 'cwd', 'fchdir', 'chdir'}
+CONFIG_BUILDERS = ['process_groups_from_parser', 'processes_from_section', '_processes_from_section', 'parse_fcgi_socket']
+
+
+def _cwd_facts(opt):
+    so = _cls(opt, 'ServerOptions')
+    calls = []
+    for name in CONFIG_BUILDERS:
+        fn = _meth(so, name)
+        found = []
+        for n in ast.walk(fn):
+            if isinstance(n, ast.Call):
+                f = ast.unparse(n.func).split('.')[-1]
+                if f in CWD_DEPENDENT:
+                    found.append(f)
+        calls.append((name, found))
+    # the chain of functions applied to a child log file name
+    fn = _meth(so, '_processes_from_section')
+    loops = [n for n in ast.walk(fn) if isinstance(n, ast.For) and isinstance(n.iter, (ast.Tuple, ast.List))
+             and [getattr(e, 'value', None) for e in n.iter.elts] == ['stdout', 'stderr']]
+    if len(loops) != 1:
+        raise ValueError("_processes_from_section: %d loops over ('stdout', 'stderr'), expected 1" % len(loops))
+    keyvars = [st.targets[0].id for st in loops[0].body if isinstance(st, ast.Assign) and isinstance(st.targets[0], ast.Name)
+               and isinstance(st.value, ast.BinOp) and isinstance(st.value.left, ast.Constant) and st.value.left.value == '%s_logfile']
+    stores = [n for n in ast.walk(loops[0]) if isinstance(n, ast.Assign) and isinstance(n.targets[0], ast.Subscript)
+              and ast.unparse(n.targets[0].slice) in keyvars and isinstance(n.value, ast.Name)]
+    if len(keyvars) != 1 or len(stores) != 1:
+        raise ValueError('_processes_from_section: cannot find where the log file name is stored (logfiles[<key>] = <name>)')
+    var = stores[0].value.id
+    chain = []
+    def walk(stmts):
+        for st in stmts:
+            if isinstance(st, ast.Assign) and any(isinstance(t, ast.Name) and t.id == var for t in st.targets):
+                if isinstance(st.value, ast.Constant):
+                    continue                                             # (syslog: the name is dropped, lf_val = None)
+                if not isinstance(st.value, ast.Call):
+                    raise ValueError('_processes_from_section: %s is assigned something that is not a call: %s' % (var, ast.unparse(st)))
+                chain.append(ast.unparse(st.value.func).split('.')[-1])
+            elif isinstance(st, (ast.AugAssign, ast.AnnAssign)) and ast.unparse(st.target) == var:
+                raise ValueError('_processes_from_section: %s' % ast.unparse(st))
+            for field in ('body', 'orelse', 'finalbody'):
+                b = getattr(st, field, None)
+                if isinstance(b, list) and b and isinstance(b[0], ast.stmt):
+                    walk(b)
+            for h in getattr(st, 'handlers', []) or []:
+                walk(h.body)
+    walk(loops[0].body)
+    # parse_fcgi_socket: `if not os.path.isabs(path): raise ValueError(...)` in front of every other use of the path
+    pf = _meth(so, 'parse_fcgi_socket')
+    isabs = False
+    for n in ast.walk(pf):
+        if isinstance(n, ast.If) and isinstance(n.test, ast.UnaryOp) and isinstance(n.test.op, ast.Not) and isinstance(n.test.operand, ast.Call) \
+                and ast.unparse(n.test.operand.func).split('.')[-1] == 'isabs' and n.body and isinstance(n.body[0], ast.Raise):
+            later = [c for c in ast.walk(pf) if isinstance(c, ast.Call) and ast.unparse(c.func).split('.')[-1] in CWD_DEPENDENT]
+            isabs = all(c.lineno > n.lineno for c in later)
+    return calls, chain, isabs
+
+
 LOOP_TABLE_HEADER = [
     '/-- how runforever decides, after the requests of a pass were dispatched, whether a group of the list taken before poll() is still active -/',
     'inductive GuardKind where',
@@ -323,6 +446,18 @@ def TABLES():
     L.append('/-- ServerOptions.process_config: does it assign self.process_group_configs, and under which tests -/')
     L.append('def processConfigInstalls : Bool := %s' % ('true' if found[0] else 'false'))
     lst('processConfigInstallGuards', guards)
+    pairs = lambda xs: ', '.join('(%s, %s)' % (lean_str(a), lean_str(b)) for a, b in xs)
+    L.append('/-- expand(): the except clauses around `s % expansions`, in order: (class caught, class raised) -/')
+    L.append('def expandHandlers : List (String × String) := [%s]' % pairs(_expand_handlers(opt)))
+    L.append('/-- reloadConfig: the except clauses around options.process_config(): (class caught, fault of the RPCError raised) -/')
+    L.append('def reloadCatches : List (String × String) := [%s]' % pairs(_reload_catches()))
+    cwd_calls, chain, isabs = _cwd_facts(opt)
+    L.append('/-- the functions applied, in order, to the value of stdout_logfile / stderr_logfile in _processes_from_section -/')
+    lst('childLogfileChain', chain)
+    L.append('/-- calls of working-directory dependent functions inside the functions that build group / process configurations -/')
+    L.append('def cwdCalls : List (String × List String) := [%s]' % ', '.join(
+        '(%s, [%s])' % (lean_str(f), ', '.join(lean_str(c) for c in cs)) for f, cs in cwd_calls))
+    L.append('def fcgiSocketPathMustBeAbsolute : Bool := %s' % ('true' if isabs else 'false'))
     L.extend(LOOP_TABLE_HEADER)
     L.append('def loopIteratesSnapshot : Bool := %s' % ('true' if snapshot else 'false'))
     L.append('def loopTransitionGuard : GuardKind := .%s' % guard)
